@@ -7,6 +7,16 @@ that set (and raise alike).  Lifted through `Checker.check` (loader outcomes, `b
 namespace I18n.Meta
 open I18n.Check
 
+theorem enumerate_map_snd (i : Nat) (fs : List Text) : (enumerate i fs).map (·.2) = fs := by
+  induction fs generalizing i with
+  | nil => rfl
+  | cons f rest ih => simp [enumerate, ih]
+
+theorem enumerate_any (p : Text → Bool) (i : Nat) (fs : List Text) : (enumerate i fs).any (fun kv => p kv.2) = fs.any p := by
+  induction fs generalizing i with
+  | nil => rfl
+  | cons f rest ih => simp [enumerate, ih]
+
 /-- `st1` (on the first run) and `st2` (on the second) treat `R`-related states alike, as far as the tags `keep` selects -/
 def Respects {σ₁ σ₂ τ : Type} (R : σ₁ → σ₂ → Prop) (keep : τ → Bool) (st1 : Stage σ₁ τ) (st2 : Stage σ₂ τ) : Prop :=
   ∀ s s', R s s' →
@@ -105,6 +115,17 @@ theorem check_sim {F₁ F₂ σ₁ σ₂ τ : Type} (R : σ₁ → σ₂ → Pro
           cases e1 <;> exact ⟨rfl, rfl⟩
         · exact afterLoad_sim R keep _ l1 l2 hst _ _ (hinit f1 g1 true h1)
       · exact afterLoad_sim R keep _ l1 l2 hst _ _ (hinit f0 g0 false h0)
+
+/-- two loaders that succeed at once, with files whose `ctx` are related -/
+theorem check_sim_ok {F₁ F₂ σ₁ σ₂ τ : Type} (R : σ₁ → σ₂ → Prop) (keep : τ → Bool) (statOk : Bool) (ext : Ext)
+    (f1 : F₁) (f2 : F₂) (init1 : F₁ → Bool → σ₁) (init2 : F₂ → Bool → σ₂)
+    (l1 : List (Stage σ₁ τ)) (l2 : List (Stage σ₂ τ))
+    (hinit : ∀ broken, R (init1 f1 broken) (init2 f2 broken)) (hst : RespectsAll R keep l1 l2) :
+    (check statOk ext (fun _ => .ok f1) init1 l1).lines.filter (keepLine keep)
+      = (check statOk ext (fun _ => .ok f2) init2 l2).lines.filter (keepLine keep) ∧
+    (check statOk ext (fun _ => .ok f1) init1 l1).uncaught = (check statOk ext (fun _ => .ok f2) init2 l2).uncaught :=
+  check_sim R (fun f g => f = f1 ∧ g = f2) keep statOk ext _ _ init1 init2 l1 l2
+    (fun _ => ⟨rfl, rfl⟩) (fun f g broken h => by rw [h.1, h.2]; exact hinit broken) hst
 
 /-- special case: the two loaders return the very same results (same file model), same `init`, same stages -/
 theorem check_congr_load {F σ τ : Type} (statOk : Bool) (ext : Ext) (load1 load2 : Bool → Except LoadErr F)
